@@ -181,6 +181,15 @@ def sizeform(prog, fn, v, depth=0, _seen=None):
             vf = vec_field_of(prog, v.args[0])
             if vf is not None:
                 return Form('AFFINE', {('len', vf): 1})
+            # `self` taken by value (`fn into_ordered_vec(mut self, ..)`): its buffer is still the collection's buffer
+            r0 = strip(v.args[0])
+            hops = 0
+            while r0 is not None and r0.kind == 'call' and r0.callee_name() in ('deref', 'as_slice', 'iter') and r0.args and hops < 4:
+                r0 = strip(r0.args[0])
+                hops += 1
+            if r0 is not None and r0.kind in ('ref', 'load') and r0.fields() and strip(r0.args[0]) is not None and strip(r0.args[0]).kind == 'escaped' \
+                    and strip(r0.args[0]).args[0] == 1 and fn.body.arg_count >= 1 and not (fn.body.locals[1]['ty'] or '').startswith('&'):
+                return Form('AFFINE', {('len', tuple(r0.fields())): 1})
             return bad('length of a local container')
         if name in ('max', 'min') and len(v.args) == 2:
             fa = sizeform(prog, fn, v.args[0], depth + 1, _seen)
